@@ -16,9 +16,17 @@ RX = "rhs_types::regex::imp_real::Regex"
 WC = "rhs_types::wildcard::Wildcard"
 
 
-def chain_calls(n):
-    """[(method, [literal-or-description of args])] for the builder chain ending at n"""
+def chain_calls(n, h=None):
+    """[(method, [literal-or-description of args])] for the builder chain ending at n; locals that are parameters of the
+    function h are described by position (`param#i`), never by spelling"""
     root, ch = chain(n)
+
+    def lname(x):
+        if h is not None:
+            for i in range(len(h.get("params", []))):
+                if is_param(x, h, i):
+                    return "param#%d" % i
+        return local_name(x)
     out = []
     for c in ch:
         args = []
@@ -32,16 +40,16 @@ def chain_calls(n):
                 if d:
                     args.append(last_seg(d))
                 elif s.get("k") == "Unary" and s.get("op") == "Not":
-                    args.append("!" + (last_seg(def_path(s["e"]) or "") or local_name(s["e"]) or "?"))
+                    args.append("!" + (last_seg(def_path(s["e"]) or "") or lname(s["e"]) or "?"))
                 elif s.get("k") == "Call" and norm(s.get("callee", "")) == "core::option::Option::Some":
                     inner = strip(s["args"][0])
-                    args.append("Some(%s)" % (inner.get("name") if inner.get("k") == "Field" else local_name(inner)))
+                    args.append("Some(%s)" % (inner.get("name") if inner.get("k") == "Field" else lname(inner)))
                 elif s.get("k") == "Field":
                     args.append(s["name"])
                 elif s.get("k") in ("Call", "MethodCall"):
                     args.append("call:" + last_seg(norm(s.get("callee", ""))))
                 else:
-                    args.append(local_name(s) or s.get("k"))
+                    args.append(lname(s) or s.get("k"))
         out.append((c["m"], args))
     return root, out
 
@@ -76,13 +84,13 @@ def rule_regexcfg(E, R):
         bl = [c for c in exprs(hn["body"], "MethodCall") if c["m"] == "build" and "regex_automata::meta" in norm(c.get("callee", ""))]
         ok = False
         if len(bl) == 1:
-            root, cc = chain_calls(bl[0])
+            root, cc = chain_calls(bl[0], hn)
             d = dict((m, a) for m, a in cc)
-            ok = d.get("configure") == ["call:meta_config"] and d.get("syntax") == ["call:syntax_config"] and d.get("build") == ["pattern"]
+            ok = d.get("configure") == ["call:meta_config"] and d.get("syntax") == ["call:syntax_config"] and d.get("build") == ["param#0"]
         R.check(ok, rule, RX + "::new", "the regex is built from the pattern with exactly these two configurations", where=hn["span"])
         # settings are forwarded
         mc = [c for c in exprs(hn["body"], "Call") if norm(c.get("callee", "")) == RX + "::meta_config"]
-        R.check(len(mc) == 1 and local_name(mc[0]["args"][0]) == "settings", rule, RX + "::new", "limits come from the caller's settings", where=hn["span"])
+        R.check(len(mc) == 1 and is_param(mc[0]["args"][0], hn, 2), rule, RX + "::new", "limits come from the caller's settings", where=hn["span"])
         # size-limit error classified
         ok = any(c["m"] == "size_limit" for c in exprs(hn["body"], "MethodCall")) and \
             any(last_seg(norm(c.get("callee", ""))) == "CompiledTooBig" for c in exprs(hn["body"], "Call"))
@@ -93,7 +101,7 @@ def rule_regexcfg(E, R):
     if hi:
         t = tail(hi["body"])
         ok = t.get("k") == "MethodCall" and norm(t.get("callee", "")) == "regex_automata::meta::regex::Regex::is_match" and \
-            local_name(t["args"][0]) == "input" and norm(t["args"][0].get("ty", "")) == "&[u8]"
+            is_param(t["args"][0], hi, 1) and norm(t["args"][0].get("ty", "")) == "&[u8]"
         R.check(ok, rule, RX + "::is_match", "unanchored search (meta::Regex::is_match) over the raw bytes", where=hi["span"])
     # lexers: pattern text and settings
     for fn, fmt in (("rhs_types::regex::lex_regex_from_raw_string", "Raw"), ("rhs_types::regex::lex_regex_from_literal", "Literal")):
@@ -102,7 +110,7 @@ def rule_regexcfg(E, R):
             R.cannot(rule, fn, "anchor not found")
             continue
         nw = [c for c in exprs(h["body"], "Call") if norm(c.get("callee", "")) == RX + "::new"]
-        ok = len(nw) == 1 and strip(nw[0]["args"][2]).get("m") == "settings" and local_name(strip(nw[0]["args"][2])["recv"]) == "parser"
+        ok = len(nw) == 1 and strip(nw[0]["args"][2]).get("m") == "settings" and is_param(strip(nw[0]["args"][2])["recv"], h, 1)
         R.check(ok, rule, fn, "compiled with the parser's own settings", where=h["span"])
         errs = [c for c in exprs(h["body"], "Call") if last_seg(norm(c.get("callee", ""))) == "ParseRegex"]
         R.check(len(errs) == 1, "R11-validate", fn, "an invalid or over-limit regex is a parse error (ParseRegex)", where=h["span"])
@@ -116,7 +124,14 @@ def rule_regexcfg(E, R):
             ok = False
             for i in exprs(h["body"], "If"):
                 c = strip(i["cond"])
-                if c.get("k") == "Binary" and c["op"] == "Or" and local_name(c["l"]) == "in_char_class":
+                flags = set()
+                for st_ in exprs(h["body"], "SLet"):
+                    if st_["pat"].get("k") == "PBinding" and norm(st_["pat"].get("ty", "")) == "bool" and "init" in st_ and is_lit(st_["init"], False):
+                        nm_ = st_["pat"]["name"]
+                        sets = {lit_value(a_["r"]) for a_ in exprs(h["body"], "Assign") if local_name(a_["l"]) == nm_}
+                        if sets == {True, False}:
+                            flags.add(nm_)
+                if c.get("k") == "Binary" and c["op"] == "Or" and local_name(c["l"]) in flags:
                     r = strip(c["r"])
                     if r.get("k") == "Binary" and r["op"] == "Ne" and lit_value(r["r"]) == '"':
                         pushes = [lit_value(x["args"][0]) for x in exprs(i["then"], "MethodCall") if x["m"] == "push"]
@@ -140,14 +155,14 @@ def rule_wildcfg(E, R):
                 "case-insensitive exactly when the operator is not the strict one", "case_insensitive(%s)" % d.get("case_insensitive"), hn["span"])
         r = strip(root)
         ok = r.get("k") == "Call" and norm(r.get("callee", "")).endswith("WildcardBuilder::from_owned") and \
-            local_name(chain(r["args"][0])[0]) == "pattern"
+            is_param(chain(r["args"][0])[0], hn, 0)
         R.check(ok, rule, WC + "::new", "the builder receives the literal's bytes", where=hn["span"])
         extra = set(d) - {"without_one_metasymbol", "case_insensitive", "build"}
         R.check(not extra, rule, WC + "::new", "no other builder option is set", str(sorted(extra)), hn["span"])
     hi = E.hir(WC + "::is_match")
     if hi:
         t = tail(hi["body"])
-        ok = t.get("k") == "MethodCall" and norm(t.get("callee", "")) == "wildcard::Wildcard::is_match" and local_name(t["args"][0]) == "input"
+        ok = t.get("k") == "MethodCall" and norm(t.get("callee", "")) == "wildcard::Wildcard::is_match" and is_param(t["args"][0], hi, 1)
         R.check(ok, rule, WC + "::is_match", "whole-value match (wildcard::Wildcard::is_match) over the raw bytes", where=hi["span"])
     # validate dominates construction
     lit = [s for s in exprs(hn["body"], "Struct") if norm(s["res"].get("path", "")) == WC]
@@ -160,7 +175,7 @@ def rule_wildcfg(E, R):
                     sc = strip(m["scrut"])
                     inner = strip(sc["args"][0]) if sc.get("args") else {}
                     if norm(inner.get("callee", "")) == "rhs_types::wildcard::validate_wildcard":
-                        val = local_name(inner["args"][1]) == "wildcard_star_limit"
+                        val = is_param(inner["args"][1], hn, 1)
         R.check(val, "R11-validate", WC + "::new", "validate_wildcard(..)? precedes construction", where=s["sp"])
     hv = E.hir("rhs_types::wildcard::validate_wildcard")
     if hv:
@@ -168,7 +183,9 @@ def rule_wildcfg(E, R):
         ds = False
         for i in exprs(hv["body"], "If"):
             c = strip(i["cond"])
-            if c.get("k") == "Binary" and local_name(c["l"]) == "star_count" and local_name(c["r"]) == "wildcard_star_limit":
+            counts = {s_["pat"]["name"] for s_ in exprs(hv["body"], "SLet") if s_["pat"].get("k") == "PBinding" and
+                      strip(s_.get("init", {})).get("m") == "metasymbol_count"}
+            if c.get("k") == "Binary" and local_name(c["l"]) in counts and is_param(c["r"], hv, 1):
                 gt = c["op"] == "Gt" and bool(explicit_err_returns(i["then"]))
                 if c["op"] != "Gt":
                     R.violation("R11-validate", norm(hv["path"]), "star limit test is `count > limit`",
@@ -177,7 +194,8 @@ def rule_wildcfg(E, R):
                 ds = bool(explicit_err_returns(i["then"]))
         R.check(gt, "R11-validate", norm(hv["path"]), "more stars than the limit is rejected", where=hv["span"])
         R.check(ds, "R11-validate", norm(hv["path"]), "`**` is rejected", where=hv["span"])
-        sc = any(s["pat"].get("name") == "star_count" and strip(s.get("init", {})).get("m") == "metasymbol_count" for s in exprs(hv["body"], "SLet"))
+        sc = any(s["pat"].get("k") == "PBinding" and strip(s.get("init", {})).get("m") == "metasymbol_count" and
+                 is_param(strip(s["init"])["recv"], hv, 0) for s in exprs(hv["body"], "SLet"))
         R.check(sc, "R11-validate", norm(hv["path"]), "stars are counted by the engine's metasymbol count", where=hv["span"])
     else:
         R.cannot("R11-validate", "validate_wildcard", "anchor not found")
@@ -217,7 +235,11 @@ def rule_wiring(E, R):
         v = arm_variants(st, "ComparisonOpExpr")
         if v and v[0] in ("Matches", "Wildcard", "StrictWildcard") and norm(c.get("callee", "")).endswith("compile_with"):
             args = call_args(c)
-            R.check(local_name(args[3]) in ("regex", "wildcard"), rule, common.CMP_COMPILE, "%s compiles its own pattern" % v[0], where=c["sp"])
+            payload = set()
+            for q in walk(h["body"]):
+                if q.get("k") == "PTupleStruct" and norm(q["res"].get("path", "")).endswith("ComparisonOpExpr::" + v[0]):
+                    payload |= set(pat_bindings(q))
+            R.check(local_name(args[3]) in payload, rule, common.CMP_COMPILE, "%s compiles its own pattern" % v[0], where=c["sp"])
 
 
 def run(F, R, tier):
